@@ -131,6 +131,7 @@ static void verify_with_reference(const hist_t* h, const uint8_t* img, size_t le
     if (multi) mc_count("files.with-multi-page-chunk", 1);
 }
 
+static ssize_t cookie_append(void* c, const char* b, size_t n) { struct { uint8_t* p; size_t n, cap; }* s = c; if (s->n + n > s->cap) { s->cap = (s->n + n) * 2 + 256; s->p = realloc(s->p, s->cap); } memcpy(s->p + s->n, b, n); s->n += n; return (ssize_t)n; }
 static void run_case(const hist_t* h, bool io_modes) {
     uint8_t* img; size_t len; carquet_status_t st; const char* where;
     mcf_reset(); if (C05) { mcf_on(); mcf_poison(0xA5); }
@@ -139,6 +140,21 @@ static void run_case(const hist_t* h, bool io_modes) {
     if (rej && !strncmp(where, "close returned OK", 16)) { mc_fail("writer.close-ok-but-bytes-not-flushed", "carquet_writer_close returned OK for a caller-owned stream whose buffer still held part of the file"); return; }
     if (rej) { char k[64]; snprintf(k, sizeof k, "rejected.%s.status%d", where, st); mc_count(k, 1); mc_outcome("writer-refused"); return; }
     mc_outcome("written");
+    /* every 8th history also through two other kinds of destination; the bytes must be the ones of the memory stream:
+     * (a) a stream that cannot seek or tell (a pipe, a socket: fopencookie without a seek function);
+     * (b) a path at which a longer file already exists */
+    { static unsigned turn; if ((turn++ & 7) == 0) {
+        static struct { uint8_t* p; size_t n, cap; } sink; sink.n = 0;
+        cookie_io_functions_t io = { NULL, cookie_append, NULL, NULL }; FILE* cf = fopencookie(&sink, "w", io);
+        if (cf) { setvbuf(cf, NULL, _IOFBF, 512); tbl_result r; tbl_exec(h, cf, NULL, -1, &r); fclose(cf);
+            if (r.status != CARQUET_OK) mc_fail("writer.non-seekable-stream.refused", "status %d at %s", r.status, r.where);
+            else if (sink.n != len || memcmp(sink.p, img, len)) { size_t d = 0; while (d < len && d < sink.n && img[d] == sink.p[d]) d++; mc_fail("writer.non-seekable-stream.bytes-differ", "the file written to a stream without seek/tell differs from the one written to a memory stream at offset %zu (%zu vs %zu bytes)", d, sink.n, len); } }
+        char path[300]; snprintf(path, sizeof path, "%s/rt_pre_%d.parquet", g_dir, (int)getpid()); FILE* pf = fopen(path, "wb");
+        if (pf) { for (size_t i = 0; i < len + 1000; i++) fputc(0x5A, pf); fclose(pf); carquet_status_t st2; const char* w2;
+            if (tbl_write_path(h, path, &st2, &w2) != 0) mc_fail("writer.existing-destination.refused", "status %d at %s", st2, w2);
+            else { FILE* rf = fopen(path, "rb"); uint8_t* got = malloc(len + 2000); size_t gn = rf ? fread(got, 1, len + 2000, rf) : 0; if (rf) fclose(rf);
+                if (gn != len || memcmp(got, img, len)) mc_fail("writer.existing-destination.bytes-differ", "writing to a path that held a longer file leaves %zu bytes there, the table is %zu bytes%s", gn, len, gn > len && !memcmp(got, img, len) ? " (the new file followed by the tail of the old one)" : ""); free(got); }
+            unlink(path); } } }
     if (!C05) {
         verify_with_carquet(h, img, len, 0, NULL);
         if (io_modes) {
